@@ -862,7 +862,9 @@ impl Driver {
             }
             Op::Get { k } => {
                 if let Some(Some(v)) = got {
-                    if truth_after.cur(k).map(|l| l.vid == v).unwrap_or(false) {
+                    // (a get that returned a value past its deadline is a violation, not an access:
+                    // the entry stays dead for everything that follows)
+                    if truth_after.cur(k).map(|l| l.vid == v).unwrap_or(false) && self.truth.may_be_visible(k, now) {
                         truth_after.on_get_hit(k, now);
                     } else {
                         truth_after.on_get_miss();
@@ -1030,7 +1032,7 @@ impl Driver {
             }
             Op::Get { k } => {
                 if let Some(Some(v)) = got {
-                    if self.truth.cur(k).map(|l| l.vid == v).unwrap_or(false) {
+                    if self.truth.cur(k).map(|l| l.vid == v).unwrap_or(false) && self.truth.may_be_visible(k, now) {
                         self.truth.on_get_hit(k, now);
                     } else {
                         self.truth.on_get_miss();
